@@ -8,3 +8,13 @@ Definition V_CRASH : value := VL [VB (B "CRASH"%string)].
 Definition V_HANG : value := VL [VB (B "HANG"%string)].
 
 Definition chk_C11 (c o : value) : bool := negb (veqb o V_CRASH) && negb (veqb o V_HANG).
+
+(* a request to the filesystem handler always comes to an end within the turns the harness grants (64 event-loop turns,
+   i.e. 4 MiB of file): the observation ( status length range body closed ) must report the close.  A transfer that
+   re-arms itself for ever is a hang even though each single event returns. *)
+Definition chk_C11_fs (c o : value) : bool :=
+  chk_C11 c o &&
+  match o with
+  | VL [VI _; VB _; VB _; VB _; VI closed] => as_bool closed
+  | _ => true
+  end.
